@@ -44,15 +44,18 @@ InputsDiffer == Digest(Base, 1) # Digest(Base, 2)
 HashTypes == {1, 2, 3, 129, 130, 131}
 Base2 == [Base EXCEPT !.outs = @ \o <<[value |-> <<9, 9, 0, 0, 0, 0, 0, 0>>, script |-> <<83>>]>>]       \* two outputs
 Mut2(tx, f) == IF f = "out2.value" THEN [tx EXCEPT !.outs[2].value = <<9, 9, 0, 0, 0, 0, 0, 1>>] ELSE Mut(tx, f)
-CommittedHT(tx, i, f, ht) ==
+\* the role of field f seen from input i (output k is "at the index" of input k), then SigHash!CommitsHT
+Role(i, f) ==
     LET other == IF i = 1 THEN "in2" ELSE "in1"
         own == IF i = 1 THEN "in1" ELSE "in2" IN
-    \/ f \in {"version", "locktime"}
-    \/ f \in {own \o ".outpoint", own \o ".seq", own \o ".key", own \o ".amount"}
-    \/ (f = other \o ".outpoint" /\ ~AnyoneCanPay(ht))
-    \/ (f = other \o ".seq" /\ ~AnyoneCanPay(ht) /\ BaseType(ht) = 1)
-    \/ (f \in {"out.value", "out.script"} /\ (BaseType(ht) = 1 \/ (BaseType(ht) = 3 /\ i = 1)))
-    \/ (f = "out2.value" /\ (BaseType(ht) = 1 \/ (BaseType(ht) = 3 /\ i = 2)))
+    CASE f \in {"version", "locktime"} -> f
+      [] f = own \o ".outpoint" -> "own.outpoint" [] f = own \o ".seq" -> "own.seq" [] f = own \o ".key" -> "own.key"
+      [] f = own \o ".amount" -> "own.amount"
+      [] f = other \o ".outpoint" -> "other.outpoint" [] f = other \o ".seq" -> "other.seq"
+      [] f \in {"out.value", "out.script"} -> IF i = 1 THEN "out.same" ELSE "out.other"
+      [] f = "out2.value" -> IF i = 2 THEN "out.same" ELSE "out.other"
+      [] OTHER -> "none"
+CommittedHT(tx, i, f, ht) == Role(i, f) # "none" /\ CommitsHT(Role(i, f), ht)
 HashTypeCommitment ==
     \A i \in {1, 2}, ht \in HashTypes :
         Base2.ins[i].kind \in SegwitKinds =>
